@@ -164,9 +164,19 @@ class CFG:
                     hs.add(h)
         return hs
 
+    def in_natural_loop(self, b, h):
+        """b belongs to the natural loop of header h: b reaches a back-edge source of h without passing h"""
+        if b == h:
+            return True
+        srcs = [p for p in self.pred[h] if p in self.reach and self.dominates(h, p)]
+        for p in srcs:
+            if b == p or self.path_exists(b, p, avoid=[h]):
+                return True
+        return False
+
     def inner_header(self, b):
         """header of the innermost loop containing block b"""
-        cands = [h for h in self.headers() if self.dominates(h, b) and (h == b or self.path_exists(b, h))]
+        cands = [h for h in self.headers() if self.dominates(h, b) and self.in_natural_loop(b, h)]
         if not cands:
             return None
         return max(cands, key=lambda h: len(self.dom()[h]))
@@ -175,7 +185,7 @@ class CFG:
         """header of the outermost loop containing block b (None when b is not in a loop)"""
         if not self.in_loop(b):
             return None
-        cands = [d for d in self.dom().get(b, ()) if self.path_exists(d, b) and self.path_exists(b, d)]
+        cands = [h for h in self.headers() if self.dominates(h, b) and self.in_natural_loop(b, h)]
         if not cands:
             return None
         return min(cands, key=lambda h: len(self.dom()[h]))
